@@ -14,8 +14,8 @@ Qed.
 Lemma tok_eqb_eq a b : tok_eqb a b = true <-> a = b.
 Proof.
   destruct a, b; cbn; try (split; [discriminate|discriminate]); try tauto.
-  - rewrite andb_true_iff, N.eqb_eq, Nat.eqb_eq. split; [intros [-> ->]; reflexivity | intros H; inversion H; tauto].
-  - rewrite andb_true_iff, N.eqb_eq, Nat.eqb_eq. split; [intros [-> ->]; reflexivity | intros H; inversion H; tauto].
+  - rewrite andb_true_iff, !N.eqb_eq. split; [intros [-> ->]; reflexivity | intros H; inversion H; tauto].
+  - rewrite andb_true_iff, !N.eqb_eq. split; [intros [-> ->]; reflexivity | intros H; inversion H; tauto].
 Qed.
 Lemma wbyte_eqb_eq a b : wbyte_eqb a b = true <-> a = b.
 Proof.
@@ -89,8 +89,9 @@ Proof.
   destruct mark_len as [|ml] eqn:Eml; [lia|]. cbn [mac_bytes]. cbv beta iota. cbn [lookupN macs wt]. rewrite (N.eqb_refl mid).
   cbn [me_secret me_prefix]. rewrite (N.eqb_refl (k_secret k)).
   rewrite (list_eqb_refl wbyte_eqb (fun x => proj2 (wbyte_eqb_eq x x) eq_refl)). cbn [andb].
-  assert (Et : map wt ({| wv := nth 0 tagvals 0%N; wt := TMac mid 0 |} :: mac_bytes mid 1 ml tagvals) = mark_toks mid).
-  { unfold mark_toks. rewrite Eml. cbn [mac_bytes map wt]. rewrite (mac_bytes_toks mid 1 ml tagvals). reflexivity. }
+  match goal with |- list_eqb tok_eqb (map wt ?l) _ = true =>
+    assert (Et : map wt l = mark_toks mid) end.
+  { unfold mark_toks. rewrite Eml. cbn [mac_bytes map wt]. rewrite (mac_bytes_toks mid (0 + 1) ml tagvals). reflexivity. }
   rewrite Et. apply (list_eqb_refl tok_eqb (fun x => proj2 (tok_eqb_eq x x) eq_refl)).
 Qed.
 
@@ -153,10 +154,10 @@ Qed.
 Lemma sizes c : 16 <= salt_size c /\ salt_size c <= 32 /\ tag_size c = 16.
 Proof. destruct c; vm_compute; repeat split; repeat constructor. Qed.
 
-Lemma ct_bytes_nth id a n j : j < n -> nth_error (ct_bytes id a n) j = Some {| wv := 0; wt := TCt id (a + j) |}.
+Lemma ct_bytes_nth id a n j : j < n -> nth_error (ct_bytes id a n) j = Some {| wv := 0; wt := TCt id (a + N.of_nat j) |}.
 Proof.
-  revert a j. induction n as [|n IH]; intros a j Hj; [lia|]. destruct j as [|j]; cbn.
-  - rewrite Nat.add_0_r. reflexivity.
+  revert a j. induction n as [|n IH]; intros a j Hj; [lia|]. destruct j as [|j]; cbn [ct_bytes nth_error].
+  - rewrite N.add_0_r. reflexivity.
   - rewrite IH by lia. do 3 f_equal. lia.
 Qed.
 Lemma ct_bytes_length id a n : length (ct_bytes id a n) = n.
